@@ -58,9 +58,18 @@ def unit_predict(sizes):
     return _merge_canaries(settle(ctx.all_obls, mode="U"))
 
 
-def unit_btp_btf(sizes, gamma_mode):
+def _alias(teams, alias):
+    """the same rating object in two slots (a valid call: _check_teams accepts it)"""
+    if alias == "across":
+        teams[1][0] = teams[0][0]
+    elif alias == "within":
+        teams[0][1] = teams[0][0]
+    return teams
+
+
+def unit_btp_btf(sizes, gamma_mode, alias=None):
     recs = []
-    shape = f"sizes={sizes},gamma={gamma_mode}"
+    shape = f"sizes={sizes},gamma={gamma_mode}" + (f",same object twice ({alias})" if alias else "")
     ctx = Ctx("U")
 
     def run(ctx):
@@ -78,9 +87,9 @@ def unit_btp_btf(sizes, gamma_mode):
                 kw["gamma"] = gamma
             mod, _ = game.mk_model(ctx, S, **kw)
             for ranks in (None, [1, 1], [2, 1]):
-                res[(m, str(ranks))] = call(mod.rate, game.mk_teams(ctx, S, sizes), ranks=ranks)
+                res[(m, str(ranks))] = call(mod.rate, _alias(game.mk_teams(ctx, S, sizes), alias), ranks=ranks)
         for ranks in (None, [1, 1], [2, 1]):
-            rp = {"kind": "c19_btp", "sizes": list(sizes), "ranks": ranks, "gamma": gamma_mode}
+            rp = {"kind": "c19_btp", "sizes": list(sizes), "ranks": ranks, "gamma": gamma_mode, "alias": alias}
             ctx.oblige(f"C19/BTP=BTF/two-teams[ranks={ranks}]@{shape}", game.compare_outcomes(res[("BradleyTerryFull", str(ranks))], res[("BradleyTerryPart", str(ranks))]),
                        meta={"replay": lambda md, rp=rp: dict(rp, game=game.enc_game(md, sizes), params=game.enc_params(md)), "fn": "BradleyTerryPart.rate", "shape": shape})
     explore(ctx, run)
@@ -281,6 +290,9 @@ def units(tier):
         for b in ((1, 2) if tier == "quick" else (1, 2, 3, 4)):
             us.append(("unit_btp_btf", ((a, b), "default")))
     us.append(("unit_btp_btf", ((2, 1), "custom")))
+    us.append(("unit_btp_btf", ((2, 2), "default", "across")))
+    us.append(("unit_btp_btf", ((2, 1), "default", "within")))
+    us.append(("unit_btp_btf", ((1, 1), "default", "across")))
     for op in ("rate",) + PREDICTS:
         us.append(("unit_validation", (op, "teams")))
     us.append(("unit_validation", ("rate", "vectors2")))
